@@ -1085,6 +1085,9 @@ YR_API char* yr_compiler_get_error_message(
         "rule identifier \"%s\" matches previously used wildcard rule set",
         compiler->last_error_extra_info);
     break;
+  case ERROR_INVALID_OPERAND:
+    snprintf(buffer, buffer_size, "invalid operand: negative shift count");
+    break;
   case ERROR_INVALID_VALUE:
     snprintf(
         buffer,
